@@ -41,6 +41,12 @@ CHECKS = {
             "with ids, depends_on, guards and loop counters renamed consistently; then A alone, B alone and the fusion are executed for 1-3 steps and private persistent variables compared. Sampled.",
             "Premise of the property enforced by construction (disjoint written persistent variables, <t>/<dt> not assigned, no early exits); interpreter trusted via C01.",
             "DESIGN.md 2/C16"),
+    "C13": ("exhaustive pairs of short names + Hypothesis rule-based state machines per target (lookup_var / lookup_function / make_unique / clear_locals) + end-to-end programs compiled by Python and gfortran; oracle = model of first answers with stability, distinctness, legality, reserved-name and storage-class invariants",
+            "All ordered pairs of names of length <= 2 (quick) / <= 3 (thorough) over an 8-symbol adversarial alphabet are looked up in fresh name managers of both targets; rule-based machines issue lookups of variables, functions and unique names "
+            "from a pool of case/punctuation variants, generated-name look-alikes, keywords and 80-character names, and every history is checked for stability, pairwise distinctness (case-folded and across all maps for Fortran), legality "
+            "(Python identifier/keyword rules, Fortran 2003 rules), reserved identifiers and storage class; drawn name sets are also used in a real program that is executed (Python) and syntax-checked (gfortran).",
+            "Names starting with dagrt_ are excluded as documented; legality is judged against the encoded language rules and the two compilers present here.",
+            "DESIGN.md 2/C13"),
     "C14": ("exhaustive unify laws over the 9-kind universe (81 pairs, 729 triples) + Hypothesis programs and adversarial statement lists x permutations x PYTHONHASHSEED child processes; oracle = equal tables",
             "Idempotence, commutativity and associativity 'wherever defined' are checked on all pairs/triples; generated programs and def-order-free adversarial statement lists are inferred in 8 (quick) / 24 (thorough) "
             "presentation orders of statements and phases, and re-inferred from the builder's frozensets in child processes under 4/16 hash seeds; tables or failure classes must coincide.",
